@@ -348,6 +348,7 @@ func (c *RetryClient) SetClient(ctx context.Context, cli *BaseClient) {
 			c.muStats.Unlock()
 
 			task(ctx, cli)
+			simYield("retry.afterTask")
 
 			c.muStats.Lock()
 			c.stats.QueuedRetries = len(c.retryQueue)
